@@ -55,6 +55,26 @@ def judge_mutate(s, area, names):
     n = 0
     for name in names:
         O.observe(name, area, st)
+    # an observation that was handed out belongs to the caller: writing to it (its agent's pose, its cells) changes neither
+    # the state nor anything a later observation is built from
+    for name in names:
+        try:
+            raw = O.obs_fn(name, area)(st, rng=ChoiceRng([], random_fill=0.5))
+        except Exception:  # noqa: BLE001 -- reported by judge()
+            continue
+        raw.agent.position = Position(raw.grid.shape.height - 1 - raw.agent.position.y, raw.grid.shape.width - 1 - raw.agent.position.x)
+        raw.agent.orientation = ORI[R.TURN_RIGHT['F']]
+        raw.agent.grid_object = mk(U.beacon(2))
+        for p in list(raw.grid.area.positions()):
+            raw.grid[p] = mk(U.beacon(1))
+        n += 1
+        if sdesc(st) != s:
+            return n, f'{name} area {area}: writing to a returned observation changed the observed state', name
+        for name2 in names:
+            n += 1
+            m = O.check_sound(name2, area, s, O.observe(name2, area, st, fill=0.5))
+            if m:
+                return n, f'{name2} area {area}: after writing to an observation returned earlier by {name}: {m}', name2
     cells = [(y, x) for y in range(H) for x in range(W)]
     (ymin, ymax), (xmin, xmax) = area
     corners = {c for c in (R.world_cell(s[1], s[2], s[3], dy, dx) for dy in (ymin, ymax) for dx in (xmin, xmax)) if R.inside(s[0], c)}
@@ -79,6 +99,42 @@ def judge_mutate(s, area, names):
             if m:
                 return n, f'{name} area {area}: after an in-place {e[0]} of the observed state ({e[1:]}): {m}', name
     return n, None, None
+
+
+LIFETIME_AREAS = [((-2, 0), (-1, 1)), ((-1, 0), (0, 0)), ((-3, 0), (-2, 2)), ((0, 0), (-1, 1)), ((-2, 0), (0, 2)),
+                  ((-1, 0), (-3, 1)), ((-1, 1), (-1, 1)), ((0, 2), (0, 0)), ((-2, 1), (-2, 0)), ((-6, 0), (-3, 3))]
+
+
+def judge_lifetimes(rounds, as_lists):
+    """observation functions are built one after another, each with its own Area object (built from lists, as the
+    configuration loader does, or from tuples), used on a few states and dropped: what a function shows depends on ITS
+    area, not on the areas of functions that existed before it (their memory may be reused)"""
+    from gym_gridverse.envs import observation_functions as OF
+    from gym_gridverse.geometry import Area
+    from ..desc import sdesc
+
+    rows = U.labelled_grid((4, 3), {(1, 1)})
+    states = [(rows, y, x, h, NONE) for y, x, h in ((3, 1, 'F'), (0, 0, 'R'), (2, 2, 'B'), (1, 0, 'L'))]
+    n = 0
+    for r in range(rounds):
+        for i, area in enumerate(LIFETIME_AREAS):
+            for name in O.ALL_FUNCS:
+                if not O.applicable(name, area):
+                    continue
+                a = Area(list(area[0]), list(area[1])) if as_lists else Area(tuple(area[0]), tuple(area[1]))
+                fn = OF.factory(name, area=a)
+                for s in states:
+                    n += 1
+                    try:
+                        o = sdesc(fn(mkstate(s), rng=ChoiceRng([], random_fill=0.5)))
+                    except Exception as e:  # noqa: BLE001
+                        o = ('EXC', type(e).__name__, str(e)[:200])
+                    m = O.check_sound(name, area, s, o)
+                    if m:
+                        return n, (f'{name} built with its own Area object {area} ({"lists" if as_lists else "tuples"}; round {r}, after the '
+                                   f'functions of the earlier areas were dropped): {m}')
+                del fn, a
+    return n, None
 
 
 def judge_all(s, area, names, seeds):
@@ -133,6 +189,8 @@ def _work(job):
 
 
 def replay(case):
+    if case['kind'] == 'obs_lifetimes':
+        return judge_lifetimes(case['rounds'], case['as_lists'])[1]
     if case['kind'] == 'obs_mutate':
         return judge_mutate(tup(case['s']), tup(case['area']), case['names'])[1]
     if case['kind'] == 'obs_all':
@@ -172,6 +230,15 @@ def run(rep, tier, seed):
         fails.extend(fl)
         if sample:
             rep.sample(sample, limit=3)
+    ln = 0
+    for as_lists in (True, False):
+        k, m = judge_lifetimes(3 if tier == 'quick' else 8, as_lists)
+        ln += k
+        if m:
+            fails.append({'kind': 'obs_lifetimes', 'rounds': 3 if tier == 'quick' else 8, 'as_lists': as_lists, 'message': m,
+                          'sig': {'part': 'lifetimes'}})
+    tot[0] += ln
+    rep.part('function_lifetimes', observations=ln, areas=len(LIFETIME_AREAS), rule='one Area object per function, lists and tuples, built and dropped in sequence')
     dyn.report_fails(rep, fails, replay)
     rep.assume('partially_occluded is only exercised with the agent on the bottom row of the view (documented precondition)')
     return rep.finish(
